@@ -39,6 +39,7 @@ impl Report {
 }
 
 fn guarded<T>(f: impl FnOnce() -> T) -> Result<T, String> {
+    sched::QUIET_MAIN.with(|q| q.set(true));
     match catch_unwind(AssertUnwindSafe(f)) {
         Ok(v) => Ok(v),
         Err(_) => {
@@ -56,6 +57,7 @@ fn panic_shape(p: &str) -> String {
 
 /// Is this binary built with overflow checks? (decided by running an overflowing add)
 pub fn overflow_checks_on() -> bool {
+    sched::QUIET_MAIN.with(|q| q.set(true));
     let r = catch_unwind(|| {
         let x: u8 = std::hint::black_box(255);
         std::hint::black_box(x + std::hint::black_box(1))
@@ -148,7 +150,18 @@ pub fn c12_fee(thorough: bool) -> Report {
                 Violation {
                     property: "C12",
                     clause: "exact",
-                    shape: format!("fee_sufficient returns {} where the exact predicate is {} ({})", got, want, if rhs > u64::MAX as u128 { "right side exceeds 64 bits" } else { "in range" }),
+                    shape: format!(
+                        "fee_sufficient returns {} where the exact predicate is {} ({})",
+                        got,
+                        want,
+                        if rhs > u64::MAX as u128 {
+                            "right side exceeds 64 bits"
+                        } else if amount as u128 * ppm as u128 > u64::MAX as u128 {
+                            "right side fits in 64 bits but the intermediate product amount*ppm does not"
+                        } else {
+                            "everything fits in 64 bits"
+                        }
+                    ),
                     detail: input.to_string(),
                 },
                 input,
@@ -318,6 +331,10 @@ fn entries_of(s: &SerializedTlvStream, max_type_probe: &[u64]) -> Vec<(u64, Vec<
     let bytes = SerializedTlvStream::to_bytes(s.clone());
     let _ = max_type_probe;
     lenient_parse(&bytes)
+}
+
+pub fn lenient_parse_pub(b: &[u8]) -> Vec<(u64, Vec<u8>)> {
+    lenient_parse(b)
 }
 
 fn lenient_parse(mut b: &[u8]) -> Vec<(u64, Vec<u8>)> {
@@ -739,3 +756,127 @@ pub fn c18(thorough: bool, threads: usize) -> Report {
 }
 
 fn sched_clear() {}
+
+// ------------------------------------------------------------------ C06 inputs
+
+/// Malformed / arbitrary payload bytes through the serde entry of `HtlcAcceptedRequest` and through
+/// `handle_htlc` (as a forward and as a final hop): no panic, a response on the first poll that serialises.
+pub fn c06_inputs(thorough: bool, _threads: usize) -> Report {
+    use crate::engine_w::{WCfg, W};
+    use crate::explore::Model;
+    let mut rep = Report::default();
+    let mut inputs: Vec<Vec<u8>> = vec![vec![]];
+    for a in 0..=255u8 {
+        inputs.push(vec![a]);
+    }
+    let two: Vec<u8> = if thorough { (0..=255u8).collect() } else { vec![0, 1, 2, 16, 0x21, 0x80, 0xfc, 0xfd, 0xfe, 0xff] };
+    for a in 0..=255u8 {
+        for b in &two {
+            inputs.push(vec![a, *b]);
+        }
+    }
+    inputs.extend(structured_streams().into_iter().filter(|s| s.len() < 70_000));
+    // --- serde entry
+    let mut ok_parse = 0u64;
+    for x in &inputs {
+        for with_fields in [true, false] {
+            let mut onion = serde_json::json!({"payload": hex::encode(x), "type": "tlv", "shared_secret": "00"});
+            if with_fields {
+                onion["forward_msat"] = serde_json::json!(u64::MAX);
+                onion["total_msat"] = serde_json::json!(0);
+            }
+            let v = serde_json::json!({
+                "onion": onion,
+                "htlc": {"short_channel_id": "1x2x3", "id": u64::MAX, "amount_msat": u64::MAX, "cltv_expiry": u32::MAX, "cltv_expiry_relative": i64::MIN, "payment_hash": "00"},
+            });
+            rep.evaluations += 1;
+            match guarded(|| serde_json::from_value::<crate::messages::HtlcAcceptedRequest>(v)) {
+                Ok(Ok(_)) => ok_parse += 1,
+                Ok(Err(_)) => {}
+                Err(p) => rep.add_found(
+                    Violation {
+                        property: "C06",
+                        clause: "no-panic",
+                        shape: format!("deserialising the htlc_accepted request panics: {}", panic_shape(&p)),
+                        detail: format!("payload {} :: {}", hex::encode(&x[..x.len().min(40)]), p),
+                    },
+                    serde_json::json!({"payload": hex::encode(&x[..x.len().min(64)])}),
+                ),
+            }
+        }
+    }
+    // --- handle_htlc with arbitrary record-16 values
+    let mut cfg = WCfg::base("I/C06-inputs");
+    cfg.add_invoice(&crate::common::InvoiceSpec::fixed(1, 1_000_000));
+    cfg.props = ["C06"].into_iter().collect();
+    let cfg = std::sync::Arc::new(cfg);
+    let mut world = W::new(&cfg);
+    let mut ready = 0u64;
+    for x in &inputs {
+        for forward in [false, true] {
+            for fwd in [Some(0u64), None, Some(u64::MAX)] {
+                let spec = crate::common::HtlcSpec {
+                    name: "x".into(),
+                    id: 1,
+                    payment_hash: vec![7; 32],
+                    amount_msat: 1,
+                    cltv_expiry: 0,
+                    cltv_expiry_relative: Some(i64::MIN),
+                    forward_msat: fwd,
+                    total_msat: Some(u64::MAX),
+                    forward_scid: forward,
+                    metadata: Some(x.clone()),
+                    extra_records: vec![(2, vec![1]), (18, vec![2, 3]), (65537, vec![])],
+                };
+                rep.evaluations += 1;
+                let r = world.poll_htlc_once(spec.request(0));
+                match r {
+                    Ok(Some(resp)) => {
+                        ready += 1;
+                        if serde_json::to_value(&resp).is_err() {
+                            rep.add_found(
+                                Violation {
+                                    property: "C06",
+                                    clause: "well-formed-response",
+                                    shape: "response does not serialise".into(),
+                                    detail: hex::encode(&x[..x.len().min(40)]),
+                                },
+                                serde_json::json!({"metadata": hex::encode(&x[..x.len().min(64)])}),
+                            );
+                        }
+                    }
+                    Ok(None) => rep.add_found(
+                        Violation {
+                            property: "C06",
+                            clause: "answered",
+                            shape: "htlc with unusable payment metadata is not answered at once".into(),
+                            detail: format!("metadata {} forward {} fwd_msat {:?}", hex::encode(&x[..x.len().min(40)]), forward, fwd),
+                        },
+                        serde_json::json!({"metadata": hex::encode(&x[..x.len().min(64)]), "forward": forward}),
+                    ),
+                    Err(p) => rep.add_found(
+                        Violation {
+                            property: "C06",
+                            clause: "no-panic",
+                            shape: format!("handle_htlc panics: {}", panic_shape(&p)),
+                            detail: format!("metadata {} forward {} :: {}", hex::encode(&x[..x.len().min(40)]), forward, p),
+                        },
+                        serde_json::json!({"metadata": hex::encode(&x[..x.len().min(64)]), "forward": forward}),
+                    ),
+                }
+            }
+        }
+    }
+    rep.distinct_nontrivial = ok_parse + ready;
+    rep.rule = format!(
+        "{} payload / payment-metadata byte strings (every string of length <= 1, {} of length 2, and the structured truncation set of C18) fed (a) as onion payload hex through serde_json::from_value::<HtlcAcceptedRequest> with extreme numeric fields and (b) as record 16 of a request handed to the real HtlcManager::handle_htlc, as forward and as final hop, forward_msat in {{0, absent, u64::MAX}}; oracle: no panic, handle_htlc ready on its first poll with a response that serialises. Non-trivial = requests that deserialise / calls that returned a response",
+        inputs.len(),
+        if thorough { "all 65536" } else { "2560" }
+    );
+    rep.samples = vec![
+        serde_json::json!({"payload":"fd","entry":"serde"}),
+        serde_json::json!({"metadata":"fd80e9","entry":"handle_htlc","as":"final hop"}),
+    ];
+    rep.exhaustive = true;
+    rep
+}
